@@ -246,7 +246,8 @@ class ProductDomain(Domain):
                 n_sampled = n
                 while n_points != n:
                     if n_points < n:
-                        n_guess = int((n / n_points - 1) * n_sampled) + 1
+                        # n_points can be 0 if all points were rejected
+                        n_guess = int((n / max(n_points, 1) - 1) * n_sampled) + 1
                         n_out, add_b_points, add_params = self._sample_uniform_b_points(
                             n_guess, params=params, device=device
                         )
